@@ -8,7 +8,7 @@
 (* spec computes the represented integer from the layout and checks the    *)
 (* exact residue identity of every operation in BigNat arithmetic.         *)
 (***************************************************************************)
-EXTENDS Edwards, ZL, Recode, FieldLimbsBig, Json, TLC, IOUtils
+EXTENDS Edwards, ZL, Recode, FieldLimbsBig, GroupFormulasBig, Json, TLC, IOUtils
 
 Tr == ndJsonDeserialize(IOEnv.VERIF_TRACE)
 N  == Len(Tr)
@@ -154,11 +154,35 @@ GroupChecks(e) ==
                   <<"real result = [k]B + [t]T8 (projection)", TRUE, e.matches>> >>
       [] OTHER -> << <<"unknown group op", "", e.f>> >>
 
+\* ---------------------------------------------------------------- point formulas with their coordinates (C16)
+FRes(xs) == SubSeq([k \in 1..Len(xs) |-> FromBytes(xs[k])], 1, Len(xs))
+FBytes(v) == SubSeq([k \in 1..Len(v) |-> ToBytes(ReduceP(v[k]), 32)], 1, Len(v))
+FormulaChecks(e) ==
+    LET p == FRes(e.p)   q == FRes(e.q)   o == FRes(e.out)   f == e.f
+        PP == GFPt(IF Len(p) = 3 THEN p \o <<Zero>> ELSE p)
+        sgn(pt) == IF e.sign = 1 THEN PtNeg(pt) ELSE pt
+        coords(pred) == <<"coordinates differ from the transcribed formula (GroupFormulasBig)", FBytes(pred), e.out, "note">>
+        point(got, want) == <<"the result is the right point", TRUE, PtEq(got, want)>>
+        ext(t) == <<"T Z = X Y", TRUE, EqP(MulP(t[4], t[3]), MulP(t[1], t[2]))>>
+    IN  CASE f = "add"           -> << point(GFPt(o), PtAdd(PP, GFPt(q))), ext(o), coords(GFP1p1ToFull(GFAddP1p1(p, q))) >>
+          [] f = "double"        -> << point(GFPt(o), PtDbl(PP)), ext(o), coords(GFDouble(p)) >>
+          [] f = "doublepartial" -> << point(GFPt(o \o <<Zero>>), PtDbl(PP)), coords(SubSeq(GFDouble(p), 1, 3)) >>
+          [] f = "cofmul"        -> << point(GFPt(o), Mul8(PP)), ext(o), coords(GFCofactorMultiply(p)) >>
+          [] f = "proj2ext"      -> << point(GFPt(o), PP), ext(o), coords(GFProjectiveToExtended(p)) >>
+          [] f = "fulltopniels"  -> << point(GFPnielsPt(o), PP), coords(GFFullToPniels(p)) >>
+          [] f = "pnielsadd"     -> << point(GFPnielsPt(o), PtAdd(PP, GFPnielsPt(q))), coords(GFPnielsAdd(p, q)) >>
+          [] f = "gesub"         -> << point(GFPt(o), PtAdd(PP, PtNeg(GFPnielsPt(q)))), ext(o), coords(GFP1p1ToFull(GFGeSub(p, q))) >>
+          [] f = "mixedpniels"   -> << point(GFPt(o), PtAdd(PP, sgn(GFPnielsPt(q)))), ext(o), coords(GFP1p1ToFull(GFMixedP1p1(p, q[1], q[2], q[4], q[3], e.sign))) >>
+          [] f = "mixedniels"    -> << point(GFPt(o), PtAdd(PP, sgn(GFNielsPt(q)))), ext(o), coords(GFP1p1ToFull(GFMixedP1p1(p, q[1], q[2], q[3], One, e.sign))) >>
+          [] f = "nielsadd2"     -> << point(GFPt(o), PtAdd(PP, GFNielsPt(q))), ext(o), coords(GFNielsAdd2(p, q)) >>
+          [] OTHER -> << <<"unknown formula", "", f>> >>
+
 Eval(i) ==
     LET e == Tr[i]
     IN  CASE e.op = "field"  -> FieldChecks(e)
           [] e.op = "scalar" -> ScalarChecks(e)
           [] e.op = "group"  -> GroupChecks(e)
+          [] e.op = "formula" -> FormulaChecks(e)
           [] OTHER -> << <<"unknown op", "", e.op>> >>
 
 Report ==
